@@ -91,6 +91,8 @@ LDX_c16 := -Wl,--wrap=pthread_spin_lock,--wrap=sem_post,--wrap=sem_wait
 WRAP_CRASH := -Wl,--wrap=socket,--wrap=connect,--wrap=bind,--wrap=listen,--wrap=accept,--wrap=shutdown,--wrap=setsockopt,--wrap=send,--wrap=sendmsg,--wrap=recv,--wrap=recvmsg,--wrap=poll,--wrap=open,--wrap=close,--wrap=unlink,--wrap=unlinkat,--wrap=rmdir,--wrap=ftruncate,--wrap=truncate,--wrap=mmap,--wrap=munmap,--wrap=write,--wrap=mkdtemp,--wrap=chmod,--wrap=chown,--wrap=fchmod,--wrap=fchown
 EXTRA_c03 := wrap_crash.o
 LDX_c03 := $(WRAP_CRASH)
+EXTRA_c05 := wrap_crash.o
+LDX_c05 := $(WRAP_CRASH)
 LDX_c04 := -Wl,--wrap=usleep
 LDX_c06 := -Wl,--wrap=recv
 EXTRA_c17 := wrap_random.o
